@@ -17,6 +17,19 @@ Theorem C43_switch_exactly_at_fork_round :
 Proof. exact ac_behaviour_recorded. Qed.
 Print Assumptions C43_switch_exactly_at_fork_round.
 
+(* Recording through one add_hardfork transaction carrying a whole request map (name -> round,
+   names distinct, ANY map): afterwards every submitted name reports its own submitted round and
+   switches exactly there. *)
+Theorem C43_add_hardfork_records_each_name_at_its_round :
+  forall ops1 ops2 req n r br,
+  ac_broken (ac_exec ops1) = false -> NoDup (map fst req) -> In (n, r) req ->
+  forallb (fun o => negb (ac_touches n o)) ops2 = true ->
+  ac_round_by_name (ac_lookup_of (ac_exec (ops1 ++ AcRecordMany req :: ops2)) n) = (r, AcOk) /\
+  ac_with_activation (ac_lookup_of (ac_exec (ops1 ++ AcRecordMany req :: ops2)) n) br
+    = if Z.ltb br r then AcBefore else AcAfter.
+Proof. exact ac_behaviour_record_many. Qed.
+Print Assumptions C43_add_hardfork_records_each_name_at_its_round.
+
 Theorem C43_before_iff_lt :
   forall r br, ac_with_activation (AcFound r) br = AcBefore <-> br < r.
 Proof. exact ac_found_before_iff. Qed.
